@@ -1,51 +1,15 @@
-"""C10 Purity of set-up."""
-import random
+"""C10 Purity of set-up.  Registered lists, scenarios and the case runner live in harness/comp/history.py (history oracle on the real
+code + differential test of the Lean slot model against the real objects)."""
 from ..comp import history as H
 
 ID = 'C10'
-P = 'EAO.Properties.C10'
-THEOREMS = [
-    (P, 'EAO.C10.setup_pure', 'slot model of the mutable state (restricted-grid and discount slots on shared grid objects, grid pointers, inner windows): for every reachable state and every set-up call the builder reads exactly the asset\'s own window, frequency and wacc'),
-    (P, 'EAO.C10.setup_pure_with_grid', 'with an explicit grid argument the result is pure for any history, even with all assets sharing one grid object'),
-    (P, 'EAO.C10.setup_pure_portfolio', 'the same for portfolio set-up'),
-    (P, 'EAO.C10.inner_windows_restored', 'the windows of assets wrapped by a structured asset equal the constructed ones in every reachable state'),
-    (P, 'EAO.C10.setup_not_pure_without_rederive', 'machine-checked counterexample for the pre-fix behaviour (set-up without grid argument did not re-derive): documents why fix 7e0d787 matters'),
-    (P, 'EAO.C10.setup_pure_split', 'the same for a split set-up: every interval problem is built from the asset\'s own data on the interval grid'),
-    (P, 'EAO.C10.portfolio_setup_all_on', 'after a portfolio set-up with grid g the portfolio, all assets and all wrapped assets sit on g'),
-    (P, 'EAO.C10.scaled_noarg_not_pure_before_fix', 'machine-checked counterexample for the behaviour before fix 19afd7c (scaled asset without grid argument)'),
-    (P, 'EAO.C10.split_leaves_wrapped_assets_on_interval_grid', 'machine-checked witness of known finding F-10e: after a split set-up wrapped assets stay on a temporary interval grid'),
-    (P, 'EAO.C10.wrapped_noarg_after_split_not_pure', 'hence a direct set-up of a wrapped asset without grid argument depends on whether a split ran before (known finding F-10e)'),
-    (P, 'EAO.C10.normalise_intervals', 'normal form of interval data (lists, implicit ends)'),
-    (P, 'EAO.C10.values_to_grid_normalise', 'evaluating the normal form gives the same result as evaluating the raw form'),
-    (P, 'EAO.C10.normalise_idem', 'normalisation is idempotent'),
-]
-PARTIAL = ['the state model covers only the slot logic (who writes the restricted/discount slots and grid pointers, what each builder reads back). Python aliasing of containers, pandas in-place semantics and the numeric content are covered ONLY by the history oracle on the real code; there is no differential test between the state model and the code (tie by inspection of the cited lines)']
-COMPONENTS = ['history oracle: n-th set-up on the same objects vs a fresh object tree and fresh grid (exact comparison of c, l, u, rows, mapping)']
-RULE = ('random histories of 2-8 calls (asset/portfolio/split set-up with and without grid argument, skip nodes, fix windows, optimise incl. soft-then-plain, extract_output, dcf, fill_level, make_slp, to_json, cost samples) on the same objects over 1-3 grid variants (shifted, other frequency, zone, main time unit, same object reused or fresh) and price containers in 5 forms; '
-        'non-trivial = history with >= 2 compared set-up calls on differing grids or prices; distinct by case hash')
+THEOREMS = H.THEOREMS
+PARTIAL = H.PARTIAL
+COMPONENTS = H.COMPONENTS
+RULE = H.RULE
 ASSUMPTIONS = []
-EXPLANATION = 'refinement theorem about an explicit slot model + history oracle (the comparison with a fresh object tree IS the property)'
-TECHNIQUE = 'Lean 4 theorems about an explicit state-machine model of the mutable slots + history oracle on the real code (fresh-object comparison)'
-NEEDS_DRIVER = False
-
-
-def scenarios(seed, tier):
-    n = 250 if tier == 'quick' else 2500
-    rnd = random.Random(seed * 7919 + 10)
-    for name, c in H.witness_cases().items():
-        yield 'witness:' + name, c
-    for i in range(n):
-        yield 'hist%d' % i, H.gen_case(random.Random(rnd.getrandbits(48)))
-
-
-def run_case(case, drv):
-    res = H.execute(case)
-    viol = H.oracle(case, res, do_shrink=True)
-    out = {'evaluated': max(1, res.get('n_compared', 1)), 'nontrivial': res.get('n_compared', 0) >= 2, 'features': list(res.get('features', [])),
-           'disagreements': [], 'violations': []}
-    for v in viol:
-        f = dict(v.get('facts', {}))
-        f['class'] = H.classify(v)
-        out['violations'].append({'oracle': v.get('oracle'), 'detail': v.get('detail'), 'facts': f, 'scenario': v.get('scenario', case)})
-    out['observed'] = {'calls': res.get('n_calls'), 'compared': res.get('n_compared')}
-    return out
+EXPLANATION = 'refinement theorem about an explicit slot model, tied to the real objects by a differential test after every operation + history oracle (the comparison with a fresh object tree IS the property)'
+TECHNIQUE = 'Lean 4 theorems about an explicit state-machine model of the mutable slots, differential test of that model against the real objects, history oracle on the real code (fresh-object comparison)'
+NEEDS_DRIVER = True
+scenarios = H.scenarios
+run_case = H.run_case
